@@ -150,6 +150,73 @@ theorem director_obs_bounded (capacity batchdiv : Nat) (dones : List Bool) (ops 
       omega
     · exact ih _ h1 o ho
 
+/-- **no spurious failure, director level**: whenever the director model reports that a call returned an error — the
+    issued `Acquire` / `Yield` itself, or a queued call woken by a cancellation — it is a call of the search the
+    operation was issued on, and that search's context is done -/
+theorem director_err_only_done (d : DState) (op : Op) (hp : d.st.panicked = false) (hlt : op.pid < d.st.procs.length) :
+    ((dStep d op).2.self = .err → doneAt (dStep d op).1.st op.pid) ∧
+    ∀ w ∈ (dStep d op).2.woke, w.2 = .err → w.1 = op.pid ∧ doneAt (dStep d op).1.st op.pid := by
+  cases op with
+  | acq p =>
+    simp only [dStep, dAcq, Op.pid]
+    exact ⟨semAcquire_err _ _ _, by simp⟩
+  | cancel p =>
+    simp only [Op.pid] at hlt
+    have h1 : doneAt (do1 d.st p .cancel) p := do1_cancel_doneAt d.st p hp hlt
+    simp only [dStep, dCancel, Op.pid]
+    split
+    · split
+      · refine ⟨by simp, ?_⟩
+        intro w hw he
+        simp only [List.mem_cons] at hw
+        rcases hw with rfl | hw
+        · exact ⟨rfl, notify_doneAt _ _ _ (by simpa [setQ_st] using do1_doneAt _ p .abort _ h1)⟩
+        · rw [notify_woke_ok _ _ w hw] at he; cases he
+      · refine ⟨by simp, ?_⟩
+        intro w hw he
+        simp only [List.mem_singleton] at hw
+        subst hw
+        exact ⟨rfl, by simpa [setQ_st] using do1_doneAt _ p .abort _ h1⟩
+    · split
+      · split
+        · refine ⟨by simp, ?_⟩
+          intro w hw he
+          simp only [List.mem_cons] at hw
+          rcases hw with rfl | hw
+          · exact ⟨rfl, notify_doneAt _ _ _ (by simpa [setQ_st] using do1_doneAt _ p .abort _ h1)⟩
+          · rw [notify_woke_ok _ _ w hw] at he; cases he
+        · refine ⟨by simp, ?_⟩
+          intro w hw he
+          simp only [List.mem_singleton] at hw
+          subst hw
+          exact ⟨rfl, by simpa [setQ_st] using do1_doneAt _ p .abort _ h1⟩
+      · exact ⟨by simp, by simp⟩
+  | expire p => simp [dStep, dExpire]
+  | yield p =>
+    simp only [dStep, dYield, Op.pid]
+    split
+    · simp
+    · split
+      · simp
+      · split
+        · simp
+        · split
+          · refine ⟨semAcquire_err _ _ _, ?_⟩
+            intro w hw he
+            rw [notify_woke_ok _ _ w hw] at he; cases he
+          · exact ⟨semAcquire_err _ _ _, by simp⟩
+  | rel p =>
+    simp only [dStep, dRelease, Op.pid]
+    split
+    · simp
+    · split
+      · simp
+      · split
+        · refine ⟨by simp, ?_⟩
+          intro w hw he
+          rw [notify_woke_ok _ _ w hw] at he; cases he
+        · simp
+
 /-- a concurrent log accepted by `replay` is a path of the small-step model (so an accepted log certifies bounded
     occupancy of the logged holding intervals) -/
 theorem replay_reach (s0 : State) : ∀ (evs : List Ev) (s s' : State) (i : Nat),
